@@ -285,9 +285,8 @@ func (w *blobWriter) Write(buf []byte) (int, error) {
 			return 0, err
 		}
 	} else {
-		if w.chunk == nil {
-			w.chunk = make([]byte, 0, w.chunkSize)
-		}
+		// Note: don't preallocate w.chunkSize bytes here: the chunk size
+		// can come from the server (OCI-Chunk-Min-Length) and be arbitrarily large.
 		w.chunk = append(w.chunk, buf...)
 	}
 	w.size += int64(len(buf))
